@@ -347,6 +347,10 @@ def run(ctx, report):
                 R6.violation(inst, 'rest_slice:%s' % ('tail' if got[:-1] == want[:-1] else 'gaps'), 'rest_slice(%s, 0, 32) returns %s; the uncovered intervals are %s' % (list(combo), got, want),
                              where(ea, rs))
 
+    # ---------------------------------------------------------------- D7 values are never evaluated a second time
+    R7 = report.rule('C07.D7', 'a value (pool content, result of an evaluation, address of a stored cell) is never passed to eval_expr again', floor=8)
+    double_eval_rule(R7, ea, methods, eh, efe)
+
     R3 = report.rule('C07.D3', 'evaluation never short-cuts on a flag that is not machine state', floor=1)
     ee = methods.get('eval_expr')
     if ee is None:
@@ -416,7 +420,100 @@ def value_chain_ok(fn, fr, val, at, res_name, depth=0):
     return rec(val), seen
 
 
+def double_eval_rule(R, ea, methods, eh, efe):
+    """Values live in terms of the INITIAL symbols (init_eax, @32[init_esi]..).  Evaluating a value again substitutes the CURRENT bindings into
+    it: a pointer loaded from memory that has since been overwritten is re-read, a binding that mentions a bound identifier is substituted twice.
+    Taint analysis per function, parameters tainted through the self-call graph (fixpoint):
+      sources  self.pool[..] / machine.pool[..] / pool_mem[..] contents and keys, results of eval_expr / get_reg, parameters that receive one;
+      sink     the first argument of <x>.eval_expr(..)."""
+    funcs = dict(('eval_abs.' + k, v) for k, v in methods.items())
+    funcs['emul_helper.emul_full_expr'] = efe
+    mods = {'emul_helper.emul_full_expr': eh}
+
+    def is_source(e):
+        t = u(e)
+        if isinstance(e, ast.Subscript) and (t.startswith('self.pool[') or t.startswith('machine.pool[') or '.pool_mem[' in t):
+            return True
+        if isinstance(e, ast.Call) and isinstance(e.func, ast.Attribute) and e.func.attr in ('eval_expr', 'get_reg', 'eval_expr_no_cache', 'find_mem_by_addr'):
+            return True
+        return False
+
+    def tainted_expr(e, tainted):
+        for n in ast.walk(e):
+            if is_source(n):
+                return True
+            if isinstance(n, ast.Name) and n.id in tainted:
+                return True
+        return False
+    param_taint = dict((q, set()) for q in funcs)
+
+    def scan(q, f, on_sink=None, on_call=None):
+        """One pass in source order: `cur` is the set of names whose latest binding (textually before the point) is a value."""
+        cur = set(param_taint[q])
+        const_checked = set()
+        nodes = sorted([n for n in walk_no_nested(f) if hasattr(n, 'lineno')], key=lambda n: (n.lineno, n.col_offset))
+        for n in nodes:
+            if isinstance(n, ast.Assign):
+                is_t = tainted_expr(n.value, cur)
+                for t in n.targets:
+                    names = [t] if isinstance(t, ast.Name) else ([x for x in t.elts if isinstance(x, ast.Name)] if isinstance(t, (ast.Tuple, ast.List)) else [])
+                    for x in names:
+                        (cur.add if is_t else cur.discard)(x.id)
+            elif isinstance(n, ast.Expr) and isinstance(n.value, ast.Call) and isinstance(n.value.func, ast.Attribute) and n.value.func.attr == 'append' \
+                    and isinstance(n.value.func.value, ast.Name) and n.value.args and tainted_expr(n.value.args[0], cur):
+                cur.add(n.value.func.value.id)
+            elif isinstance(n, ast.For):
+                is_t = tainted_expr(n.iter, cur) or 'self.pool' in u(n.iter)
+                for x in ast.walk(n.target):
+                    if isinstance(x, ast.Name):
+                        (cur.add if is_t else cur.discard)(x.id)
+            elif isinstance(n, ast.If) and isinstance(n.test, ast.UnaryOp) and isinstance(n.test.op, ast.Not) and isinstance(n.test.operand, ast.Call) \
+                    and u(n.test.operand.func) == 'isinstance' and len(n.test.operand.args) == 2 and u(n.test.operand.args[1]) == 'ExprInt' \
+                    and isinstance(n.test.operand.args[0], ast.Name) and any(isinstance(x, ast.Raise) for x in n.body):
+                # sanitizer: a name checked to be a constant evaluates to itself
+                cur.discard(n.test.operand.args[0].id)
+            elif isinstance(n, ast.Call) and isinstance(n.func, ast.Attribute):
+                if n.func.attr == 'eval_expr' and n.args and on_sink:
+                    on_sink(n, set(cur))
+                elif on_call and u(n.func.value) in ('self', 'machine') and ('eval_abs.' + n.func.attr) in funcs and n.func.attr not in ('eval_expr', 'eval_expr_no_cache'):
+                    on_call(n, set(cur))
+    changed = [True]
+    rounds = 0
+    while changed[0] and rounds < 10:
+        changed[0] = False
+        rounds += 1
+        for q, f in funcs.items():
+            def on_call(n, cur):
+                cq = 'eval_abs.' + n.func.attr
+                params = [a.arg for a in funcs[cq].args.args[1:]]
+                for i, a in enumerate(n.args):
+                    if i < len(params) and tainted_expr(a, cur) and params[i] not in param_taint[cq]:
+                        param_taint[cq].add(params[i])
+                        changed[0] = True
+            scan(q, f, on_call=on_call)
+    n_sinks = [0]
+    for q, f in sorted(funcs.items()):
+        mod_ = mods.get(q, ea)
+
+        def on_sink(n, cur, q=q, mod_=mod_):
+            n_sinks[0] += 1
+            a = n.args[0]
+            inst = '%s:eval_expr(%s)' % (q, norm(a)[:60])
+            if tainted_expr(a, cur):
+                why = [x.id for x in ast.walk(a) if isinstance(x, ast.Name) and x.id in cur]
+                R.violation(inst, 'double-eval:%s:%s' % (q, norm(a)[:70]), '%s evaluates `%s` again: %s already a value (pool content / evaluation result / stored address); the second '
+                            'evaluation reads the current memory and bindings' % (q, norm(a)[:70], ('`%s` is' % why[0]) if why else 'it is'), where(mod_, n),
+                            witness="mov eax,[esi]; mov [esi],ebx; mov [eax],ecx; mov byte ptr [eax],dl; mov edi,[eax] loses bytes 1..3 of ecx")
+            else:
+                R.ok(inst, sample='%s: eval_expr(%s) on an unevaluated sub-expression' % (q, norm(a)[:40]))
+        scan(q, f, on_sink=on_sink)
+    if n_sinks[0] < 8:
+        raise AnalysisError('only %d eval_expr call sites found' % n_sinks[0])
+
+
 MUTANTS = [
+    ('getreg-reeval', 'miasmx/expression/expression_eval_abstract.py', "        return self.pool[r]\n", "        return self.eval_expr(self.pool[r], {})\n", 'C07.D7'),
+    ('overlap-addr-reeval', 'miasmx/expression/expression_eval_abstract.py', "            ex = expr_simp(e.arg - x)", "            ex = expr_simp(self.eval_expr(e.arg - x, eval_cache))", 'C07.D7'),
     ('rep-zf-symbolic-skip', 'miasmx/tools/emul_helper.py', "                if not isinstance(my_zf, ExprInt):\n                    # the termination test cannot be decided\n                    raise ValueError('Emulation fails for \"%s\". ZF value is %s'\n                        % (l, str(my_zf)))\n", "", 'C07.D5'),
     ('rep-cap-break', 'miasmx/tools/emul_helper.py', "                raise ValueError('Emulation fails for \"%s\". ECX value is too large: %s'\n                    % (l, str(my_ecx)))\n", "                break\n", 'C07.D5'),
     ('overlap-neg-position', 'miasmx/expression/expression_eval_abstract.py', "                        out.append((ee, 0, ee.get_size()))\n", "                        out.append((ee, off_base, off_base+ee.get_size()))\n", 'C07.D6'),
